@@ -4,6 +4,11 @@ usage: seeded_meta.py <results dir> [<results dir> ...]   (later directories ove
 import json, os, re, sys
 
 WHAT = {
+ "r8-C11": "DirichletFromBeta::new fast path for n == 2 builds the Beta for the smaller alpha without recording the swap: for two alphas <= 0.1 in descending order the two components are exchanged (mass moved |a0 - a1| / (a0 + a1))",
+ "r8-C12": "UnitSphere rejects sum >= 1 - 32 sqrt(epsilon) ('numerical guard'): in f32 the south polar cap z < -0.978 (1.1 % of the surface) is never produced; f64 guard 4.8e-7",
+ "r8-C13": "Weibull fast path for -ln x within sqrt(epsilon) of 1 returns scale + a d instead of scale (1 + a d): 4260 of the 2^24 f32 words, KS 8.5e-5 at Weibull(3, 0.7), none at scale 1",
+ "r8-C14": "Poisson rejection method reads lambda^k / k! (k < 10) from a static OnceLock table built from the lambda of the first Poisson object that reaches the branch: later objects with another lambda in [12, 30] get py off by (lambda0/lambda)^k; values and word counts depend on which object was sampled first in the process",
+ "r8-C08": "",
  "r7-C01": "LogNormal::from_mean_cv computes mu = ln(mean) - sigma/2 instead of ln(mean) - sigma^2/2 ('overflow fix'): every cv except sqrt(e - 1) (the one the unit test uses) gets the wrong location; KS 0.03 .. 0.18",
  "r7-C02": "BTPE step 5.3 reuses z = n - m + 1 for the coefficient (n - m + 1/2): log-acceptance bound too high by ln((n-m+1)/(n-y+1)) in the shoulders 20 < |y - m| < npq/2 - 1 (npq > 42); TV 3.8e-4 (n = 200) .. 5.7e-3 (n = 1000, p = 0.5)",
  "r7-C03": "Gumbel rewritten as location - scale ln(-ln_1p(-u)) with u from StandardUniform ([0, 1)): u == 0 (the all-zeros word; 1 of 2^24 f32 draws) gives +inf",
